@@ -1018,7 +1018,7 @@ func TestC08(t *testing.T) {
 		kit.Class("big-failing-diff")
 		kit.NonTrivial("big-failing-diff")
 	}
-	kit.SetRapid(kit.N(300, 8000))
+	kit.SetRapid(kit.N(300, 3000))
 	rapid.Check(t, kit.Prop("C08", func(t *rapid.T) {
 		c := c08Gen(t, knownBare)
 		kit.Case(c)
